@@ -82,6 +82,13 @@ def lazy_checks():
                 out.append(("lazy:" + json.dumps(sp), f"uninitialised handle for {sp} reports {got} / {got2}"))
             if sorted(os.listdir(p.workspace)) != before:
                 out.append(("lazy:" + json.dumps(sp), f"open_job({sp}) / reading its state point wrote to the workspace"))
+            try:
+                p.open_job(id=j.id)
+                out.append(("lazy-by-id:" + json.dumps(sp), f"open_job(id=...) of the never-initialised job {sp} (only a handle was made) returned a job instead of raising KeyError"))
+            except KeyError:
+                pass
+            except Exception as e:
+                out.append(("lazy-by-id:" + json.dumps(sp), f"open_job(id=...) of the never-initialised job {sp} raised {type(e).__name__}: {e}"))
             j.init()
             q = signac.Project(p.path).open_job(id=j.id)
             try:
